@@ -9,9 +9,9 @@ import (
 	"os"
 	"runtime"
 	"runtime/pprof"
-	"time"
 	"strconv"
 	"strings"
+	"time"
 
 	"verifharness/internal/core"
 	"verifharness/internal/props"
@@ -124,7 +124,7 @@ func drive(id, tier string) int {
 	if m.MaxWorkers == 1 {
 		cfg.Env = append(cfg.Env, "GOMAXPROCS="+strconv.Itoa(runtime.NumCPU()))
 	} else {
-		cfg.Env = append(cfg.Env, "GOMAXPROCS=2", "GOMEMLIMIT=3GiB")
+		cfg.Env = append(cfg.Env, "GOMAXPROCS=2", "GOMEMLIMIT=3GiB", "GOGC=200")
 	}
 	return runner.Drive(cfg)
 }
@@ -139,6 +139,7 @@ func worker(args []string) int {
 	from := fs.Int("from", 0, "")
 	out := fs.String("out", "", "")
 	journal := fs.String("journal", "", "")
+	counter := fs.String("counter", "", "")
 	fs.Parse(args)
 	p := props.Get(*id)
 	if p == nil {
@@ -158,8 +159,23 @@ func worker(args []string) int {
 		rep.SetJournal(j)
 	}
 	n := p.NumUnits(*tier, *seed)
+	var ctr *runner.Counter
+	if *counter != "" {
+		c, err := runner.OpenCounter(*counter)
+		if err != nil {
+			fmt.Fprintln(os.Stderr, err)
+			return 2
+		}
+		ctr = c
+	}
 	for idx := *from; idx < n; idx++ {
-		if idx%*of != *shard {
+		if ctr != nil {
+			// dynamic load balancing: claim the next unit nobody has taken yet
+			idx = ctr.Next()
+			if idx >= n {
+				break
+			}
+		} else if idx%*of != *shard {
 			continue
 		}
 		rep.Mark(idx, -1, -1, -1)
